@@ -416,7 +416,15 @@ func (api *API) JSONDecode(ctx context.Context, data []byte, obj interface{}, op
 // obj must be a non-nil pointer for serix to deserialize into it.
 // serix traverses the object recursively and deserializes everything based on its type.
 // Use the options list opts to customize the deserialization behavior.
-func (api *API) MapDecode(ctx context.Context, m map[string]any, obj interface{}, opts ...Option) error {
+func (api *API) MapDecode(ctx context.Context, m map[string]any, obj interface{}, opts ...Option) (err error) {
+	// The generic map usually stems from untrusted JSON: a value of an unexpected kind (e.g. a string where a number is
+	// expected) has to result in an error instead of a panic of one of the type assertions or reflect calls below.
+	defer func() {
+		if r := recover(); r != nil {
+			err = ierrors.Errorf("failed to map decode: unexpected input: %v", r)
+		}
+	}()
+
 	value := reflect.ValueOf(obj)
 	if err := checkDecodeDestination(obj, value); err != nil {
 		return err
